@@ -130,14 +130,14 @@ def _run(mod, tier, seed, replay, pid, t_start, binfo, ps, forb, proofs_ok, head
                 'implementation_trace': im.get(small['id']), 'model_trace': mo.get(small['id']),
                 'replay_cmd': './check %s --replay <this file>' % pid})
             replays.append(p)
-            out_lines.append('VIOLATION property=%s replay=%s' % (pid, p))
+            print('VIOLATION property=%s replay=%s' % (pid, p), flush=True)
             violations += 1
         rc = 1
     elif not proofs_ok or not corr_ok:
         # extended search for a failing input: thorough population, implementation + oracle only
         found = None
         if core.os.path.exists(core.VMODEL) and not replay:
-            deadline = time.time() + float(os.environ.get('VERIF_SEARCH_S', '240'))
+            deadline = time.time() + float(os.environ.get('VERIF_SEARCH_S', '120'))
             for extra in range(1, 6):
                 if time.time() > deadline:
                     break
@@ -163,7 +163,7 @@ def _run(mod, tier, seed, replay, pid, t_start, binfo, ps, forb, proofs_ok, head
                 'property': pid, 'kind': 'failing-input', 'class': key, 'oracle_detail': d, 'case': small,
                 'header': header, 'implementation_trace': im.get(small['id']),
                 'replay_cmd': './check %s --replay <this file>' % pid})
-            out_lines.append('VIOLATION property=%s replay=%s' % (pid, p))
+            print('VIOLATION property=%s replay=%s' % (pid, p), flush=True)
         else:
             what = {}
             if not proofs_ok:
@@ -184,7 +184,7 @@ def _run(mod, tier, seed, replay, pid, t_start, binfo, ps, forb, proofs_ok, head
                 'no_longer_checks': ('theorem %s in %s' % (ps.get('failed_theorem'), ps.get('file')) if not proofs_ok else
                                      'correspondence vdrive/vmodel (%s)' % getattr(mod, 'CORR_NAME', pid)),
                 'details': what, 'header': header})
-            out_lines.append('VIOLATION property=%s replay=%s no-failing-input-found' % (pid, p))
+            print('VIOLATION property=%s replay=%s no-failing-input-found' % (pid, p), flush=True)
         violations += 1
         rc = 1
     for key, lst in known_hit.items():
